@@ -1,7 +1,6 @@
-\* general mode: both peers are arbitrary users of the association API (library check, parts 2 and 3)
+\* one run covers both modes: the initial state fixes `conf` (general mode / conforming-SCP mode)
 CONSTANTS
   Budget = 4
-  Conforming = FALSE
 INIT Init
 NEXT Next
 CHECK_DEADLOCK FALSE
